@@ -691,9 +691,11 @@ def dom_corpus(tier: str, seed: int):
             if must not in reprs:
                 reprs.append(must)
 
-    def add(d, tags, cheap=False, modes_i=0):
+    def add(d, tags, cheap=False, modes_i=0, modes=None):
         gap = d.gapless()
-        if cheap:
+        if modes is not None:
+            cfg = legalize(cfg_all(modes), d)
+        elif cheap:
             cfg = Config({f: {} for f in ("try_from", "TryFrom", "next", "next_back", "MIN", "MAX", "into", "Into")})
         else:
             tuples = mode_tuples(gap, with_range=True)
@@ -756,6 +758,13 @@ def dom_corpus(tier: str, seed: int):
                 add(make_decl(r, [("A", "-0x8000_0000_0000_0000", None), ("B", "-9223372036854775808%s" % r, None) if False else ("B", "-0o777777777777777777776", None),
                                   ("C", "- 0b111", None), ("D", "-9_223_372_036_854_775_807_%s" % r, None)],
                               shape="dom_i64_min_spellings_wide"), {"feat": ["limit", "nondecimal", "suffix"]}, modes_i=ri)
+        # 2c. gapless enums sitting exactly at the lower / upper end of the domain (iter auto = range mode)
+        for mm in ({"as_str": "auto", "from_str": "auto", "FromStr": "auto", "iter": "auto"},
+                   {"as_str": "table", "from_str": "table", "FromStr": "match", "iter": "next_and_back"}):
+            add(make_decl(r, [("A", str(lo), None), ("B", None, None), ("C", None, None)], shape="dom_gapless_from_min"),
+                {"feat": ["limit", "implicit_after_explicit"]}, modes=mm)
+            add(make_decl(r, [("A", str(hi - 2), None), ("B", None, None), ("C", None, None)], shape="dom_gapless_to_max"),
+                {"feat": ["limit", "implicit_after_explicit"]}, modes=mm)
         # 3. limits as explicit literals
         lim = [("A", str(lo), None), ("B", str(hi), None), ("C", "0" if lo != 0 else "1", None)]
         add(make_decl(r, lim, shape="dom_limits"), {"feat": ["limit"]}, modes_i=ri)
